@@ -179,7 +179,7 @@ def check(ctx):
             if sd is None:
                 continue
             src = ast.unparse(sd)
-            if 'self.default =' in src or all(isinstance(s, ast.Pass) for s in sd.body):
+            if 'self.default =' in src or all(isinstance(s, ast.Pass) or (isinstance(s, ast.Expr) and isinstance(s.value, ast.Constant)) for s in sd.body):      # a no-op (pass / docstring only) keeps nothing anywhere
                 continue
             missing = [mn for mn in ('get_default', 'has_default', 'is_default') if mn not in c.methods]
             ctx.instance('C01.R3', '%s redirects set_default and %s' % (c.qname, 'get/has/is_default' if not missing else 'NOT ' + ','.join(missing)),
